@@ -22,6 +22,9 @@ use tokio::sync::Barrier;
 /// `open_focus`: the C03.stack variant - many connections, hardly any data, a third of the opens simultaneous.
 pub struct TcpStack {
     pub open_focus: bool,
+    /// the C17.stack variant: a third machine forges segments from the peer's address that lie far
+    /// outside the receive window of established connections
+    pub byzantine: bool,
 }
 
 const CLIENT_PORT: u16 = 5000;
@@ -158,7 +161,9 @@ struct Verdicts {
 
 impl E2Run for TcpStack {
     fn id(&self) -> &'static str {
-        if self.open_focus {
+        if self.byzantine {
+            "C17.stack"
+        } else if self.open_focus {
             "C03.stack"
         } else {
             "C01.stack"
@@ -177,6 +182,9 @@ impl E2Run for TcpStack {
         let simul_out: Arc<Mutex<Vec<bool>>> = Arc::new(Mutex::new(vec![]));
         let simul_out2 = simul_out.clone();
         let open_focus = self.open_focus;
+        let byzantine = self.byzantine;
+        let attacker_mac: Arc<Mutex<Option<u64>>> = Arc::new(Mutex::new(None));
+        let attacker_mac2 = attacker_mac.clone();
         let (status, state) = sim::run_sim(case, default_cfg(), move || async move {
             draw_scheduler_knobs();
             // ---- network and faults: no bound on consecutive losses while the fault phase lasts
@@ -351,6 +359,7 @@ impl E2Run for TcpStack {
             let sh1 = sh.clone();
             let plans1: Vec<(usize, Vec<(usize, u64)>)> = (0..n_conns).map(|k| (k, plans[&(1, k)].clone())).collect();
             let simul1 = simul.clone();
+            let server_port_forger = server_port.clone();
             let server_port1 = server_port.clone();
             let pre1: Option<Box<dyn FnOnce(&Ctx) + Send>> = Some(Box::new(move |ctx: &Ctx| {
                 let tcp = ctx.machine.protocol::<Tcp>().unwrap();
@@ -420,7 +429,83 @@ impl E2Run for TcpStack {
                     }) as BoxFut
                 }))),
             };
-            let machines = vec![mk_machine(0, app0), mk_machine(1, app1)];
+            let mut machines = vec![mk_machine(0, app0), mk_machine(1, app1)];
+            if byzantine {
+                // ---- machine 2: forges segments "from" one endpoint of an established connection to the other,
+                // with sequence numbers 2^30 above or below what the victim expects (the window is at most 65535)
+                let pci = Pci::new([net.clone()]);
+                let mac = pci.mac_addresses().next().unwrap();
+                *attacker_mac2.lock().unwrap() = Some(mac);
+                let sha = sh.clone();
+                let sp = server_port_forger;
+                let forger = App::<2>::new(2).script(move |ctx: Ctx| async move {
+                    let ipv4 = TypeId::of::<Ipv4>();
+                    let session = ctx.machine.protocol::<Pci>().unwrap().open(0);
+                    loop {
+                        tokio::time::sleep(Duration::from_millis(3 + sim::choose(60))).await;
+                        if !sim::with_state(|s| s.faults_enabled) {
+                            break; // the forger stops when the network becomes fair
+                        }
+                        let k = sim::choose(n_conns as u64) as usize;
+                        let victim = sim::choose(2) as usize;
+                        // only connections that both applications have been told are established
+                        let established = {
+                            let g = sha.lock().unwrap();
+                            g.new_connection.contains_key(&(0, k)) && g.new_connection.contains_key(&(1, k))
+                        };
+                        if !established {
+                            continue;
+                        }
+                        let (cport, sport_k) = (CLIENT_PORT + k as u16, sp(k));
+                        let (src_port, dst_port) = if victim == 0 { (sport_k, cport) } else { (cport, sport_k) };
+                        // what the victim expects next is close to the highest sequence number its peer has put on the wire
+                        let peer_seq = sim::with_state(|s| {
+                            s.frames
+                                .iter()
+                                .rev()
+                                .filter(|f| f.sender != mac && f.protocol == ipv4 && f.bytes.len() >= 40 && f.bytes[9] == 6)
+                                .find(|f| u16::from_be_bytes([f.bytes[20], f.bytes[21]]) == src_port && u16::from_be_bytes([f.bytes[22], f.bytes[23]]) == dst_port && f.bytes[12..16] == addr[1 - victim].to_bytes())
+                                .map(|f| u32::from_be_bytes([f.bytes[24], f.bytes[25], f.bytes[26], f.bytes[27]]))
+                        });
+                        let Some(peer_seq) = peer_seq else { continue };
+                        let far = (1u32 << 30) + sim::choose(1 << 20) as u32;
+                        let seq = if sim::chance(1, 2) { peer_seq.wrapping_add(far) } else { peer_seq.wrapping_sub(far) };
+                        let flags = sim::choose(64);
+                        let window = *[0u16, 1, 100, 65535].get(sim::choose(4) as usize).unwrap();
+                        let mut b = etherparse::PacketBuilder::ipv4(addr[1 - victim].to_bytes(), addr[victim].to_bytes(), 30).tcp(src_port, dst_port, seq, window);
+                        if flags & 1 != 0 {
+                            b = b.fin();
+                        }
+                        if flags & 2 != 0 {
+                            b = b.syn();
+                        }
+                        if flags & 4 != 0 {
+                            b = b.rst();
+                        }
+                        if flags & 8 != 0 {
+                            b = b.psh();
+                        }
+                        if flags & 16 != 0 {
+                            b = b.ack(match sim::choose(3) {
+                                0 => sim::choose(1 << 32) as u32,
+                                1 => peer_seq,
+                                _ => 0,
+                            });
+                        }
+                        if flags & 32 != 0 {
+                            b = b.urg(sim::choose(100) as u16);
+                        }
+                        let payload: Vec<u8> = (0..sim::choose(4) * sim::choose(40)).map(|i| 0xF0 | (i as u8 & 0x0f)).collect();
+                        let mut bytes = Vec::new();
+                        b.write(&mut bytes, &payload).unwrap();
+                        if bytes.len() <= mtu as usize {
+                            sim::count(if flags & 4 != 0 { "fault_forged_reset_outside_the_window" } else if flags & 2 != 0 { "fault_forged_syn_outside_the_window" } else { "fault_forged_segment_outside_the_window" });
+                            let _ = session.send_pci(Message::new(bytes), None, ipv4);
+                        }
+                    }
+                });
+                machines.push(Machine::new().with(pci).with(forger).arc());
+            }
 
             // ---- controller: fault phase, fair phase with a liveness bound, silence window
             let shc = sh.clone();
@@ -495,8 +580,9 @@ impl E2Run for TcpStack {
         // which connection does a TCP frame belong to, and did it carry a reset?
         let ipv4 = TypeId::of::<Ipv4>();
         let simul = simul_out.lock().unwrap().clone();
+        let forger = *attacker_mac.lock().unwrap();
         let conn_of_frame = |f: &sim::FrameRec| -> Option<(usize, u8)> {
-            if f.protocol != ipv4 || f.bytes.len() < 40 || f.bytes[9] != 6 {
+            if f.protocol != ipv4 || f.bytes.len() < 40 || f.bytes[9] != 6 || Some(f.sender) == forger {
                 return None;
             }
             let t = &f.bytes[20..];
@@ -615,8 +701,8 @@ impl E2Run for TcpStack {
 
     fn budget(&self, tier: &Tier) -> (u64, u64) {
         match tier {
-            Tier::Quick => (20_000, if self.open_focus { 20 } else { 30 }),
-            Tier::Thorough => (2_000_000, if self.open_focus { 600 } else { 1200 }),
+            Tier::Quick => (20_000, if self.open_focus || self.byzantine { 20 } else { 30 }),
+            Tier::Thorough => (2_000_000, if self.open_focus || self.byzantine { 600 } else { 1200 }),
         }
     }
 
@@ -628,7 +714,9 @@ impl E2Run for TcpStack {
         ScenarioInfo {
             engine: "E2 netsim".into(),
             level: "exploration".into(),
-            rule: if self.open_focus {
+            rule: if self.byzantine {
+                "the C01.stack scenario plus a third machine that, while the fault phase lasts, forges segments from the address and port of one endpoint of an established connection to the other: any of the 64 flag combinations (resets and SYNs included), any acknowledgment number and window, 0..120 octets of text, sequence number 2^30 above or below what the victim expects, i.e. entirely outside its receive window; every oracle of C01.stack must hold unchanged: the streams are delivered completely and exactly once, no legitimate endpoint sends a reset, every connection stays announced once, the wire falls silent".into()
+            } else if self.open_focus {
                 "the C01.stack scenario with the weight on opening: 1..6 connections between two machines, a third of them opened by both sides at the same instant, 0..2 tiny writes per side, listeners shared / separate / on the wildcard address, ARP on a third of the runs; unbounded loss, duplication and delay of every TCP frame during the fault phase; then on a fair network every connection is announced to both applications exactly once, nothing is reset (a simultaneous open whose SYN met a port not yet opened is the one legitimate refusal), the little data arrives, and the wire falls silent".into()
             } else {
                 "one run = two machines with a harness application directly on the real Tcp protocol, 1..3 connections (active/passive, shared, separate or wildcard listener, or one simultaneous open), generated write scripts in both directions (1 B .. 200 KB per write, writes issued before the handshake completes), MTU 100..9000, latency jitter; fault phase: unbounded loss up to 50 %, duplication, delays up to 1.5 s (beyond the retransmission timeout) on every TCP frame; then a fair network: every byte delivered exactly once within delay bound + (12 + 4 x windows) retransmission timeouts of simulated time, then no TCP frame for 3 s; distinct = hash of decisions, frames and deliveries".into()
